@@ -266,6 +266,7 @@ def gc_plan(tier, s):
             dict(profile="groups14", n=2, cap=64, steps=1500, seed=s * 100 + 3, window=24),
             dict(profile="big16", n=16, cap=40, steps=1200, seed=s * 100 + 4, window=30),
             dict(profile="mixed", n=1, cap=8, steps=1500, seed=s * 100 + 5, window=8),
+            dict(profile="pairs", n=2, cap=28, steps=500, seed=s * 100 + 6, window=28),
         ]
     plan = []
     k = 0
@@ -582,7 +583,7 @@ def plan_export(run, prop, tier):
         obs, extra = ("debug",), ("inspect",)
     # cap > number of ids: there are always never-added slots; dead slots keep stale contents (snapshots are not masked)
     e2_product(run, acc, "A3", [(2, 5, 0), (16, 32, 2)], extra_ops=extra, observers=obs)
-    e2_product(run, acc, "C2", [(2, 4, 0), (4, 3, 5)], extra_ops=extra, observers=obs)
+    e2_product(run, acc, "C2", [(2, 4, 0), (4, 3, 5), (2, 2, 1)], extra_ops=extra, observers=obs)
     e2_product(run, acc, "G3", [(2, 3, 6)], extra_ops=extra, observers=obs, need_gc=False)
     e2_product(run, acc, "F4a", [(1, 6, 2)], extra_ops=extra, observers=obs)
     if tier == "thorough":
@@ -774,7 +775,9 @@ def plan_c19(run, prop, tier):
              dict(profile="twin", n=2, cap=12, steps=steps, seed=s * 100 + 52, window=9),
              dict(profile="slice", n=2, cap=12, steps=steps // 2, seed=s * 100 + 53, window=9),
              dict(profile="merge", n=2, cap=20, steps=steps // 2, seed=s * 100 + 54, window=9),
-             dict(profile="mixed", n=1, cap=6, steps=steps // 2, seed=s * 100 + 55, window=6)]
+             dict(profile="mixed", n=1, cap=6, steps=steps // 2, seed=s * 100 + 55, window=6),
+             dict(profile="pairs", n=2, cap=8, steps=300, seed=s * 100 + 56, window=8),
+             dict(profile="pairs", n=2, cap=28, steps=400, seed=s * 100 + 57, window=28)]
     if tier == "thorough":
         bases += [dict(profile=p, n=n, cap=c, steps=steps, seed=s * 1000 + 500 + i, window=w)
                   for i, (p, n, c, w) in enumerate([("mixed", 3, 16, 12), ("twin", 1, 8, 7), ("slice", 3, 14, 10), ("merge", 3, 24, 10), ("groups14", 2, 40, 10), ("big16", 2, 20, 18)])]
